@@ -136,8 +136,21 @@ func (b *recBackend) desc() ociregistry.Descriptor {
 	return ociregistry.Descriptor{MediaType: b.MediaType, Digest: sha256Digest(b.Content), Size: int64(len(b.Content))}
 }
 
+// descFor describes the content under the digest it was asked for (as a registry does).
+func (b *recBackend) descFor(d ociregistry.Digest) ociregistry.Descriptor {
+	desc := b.desc()
+	if d != "" {
+		desc.Digest = d
+	}
+	return desc
+}
+
 func (b *recBackend) reader(data []byte) (ociregistry.BlobReader, error) {
-	t := &trackReader{r: bytes.NewReader(data), desc: b.desc(), mu: &b.mu}
+	return b.readerFor(data, "")
+}
+
+func (b *recBackend) readerFor(data []byte, d ociregistry.Digest) (ociregistry.BlobReader, error) {
+	t := &trackReader{r: bytes.NewReader(data), desc: b.descFor(d), mu: &b.mu}
 	b.mu.Lock()
 	b.Readers = append(b.Readers, t)
 	b.mu.Unlock()
@@ -187,7 +200,7 @@ func (b *recBackend) Funcs() *ociregistry.Funcs {
 			if b.Err != nil {
 				return nil, b.Err
 			}
-			return b.reader(b.Content)
+			return b.readerFor(b.Content, d)
 		},
 		GetBlobRange_: func(ctx context.Context, repo string, d ociregistry.Digest, o0, o1 int64) (ociregistry.BlobReader, error) {
 			b.log(recCall{Method: "GetBlobRange", Repo: repo, Digest: string(d), Offset0: o0, Offset1: o1, ctx: ctx})
@@ -201,14 +214,14 @@ func (b *recBackend) Funcs() *ociregistry.Funcs {
 			if o0 < 0 || o0 > o1 {
 				return nil, fmt.Errorf("invalid range")
 			}
-			return b.reader(b.Content[o0:o1])
+			return b.readerFor(b.Content[o0:o1], d)
 		},
 		GetManifest_: func(ctx context.Context, repo string, d ociregistry.Digest) (ociregistry.BlobReader, error) {
 			b.log(recCall{Method: "GetManifest", Repo: repo, Digest: string(d), ctx: ctx})
 			if b.Err != nil {
 				return nil, b.Err
 			}
-			return b.reader(b.Content)
+			return b.readerFor(b.Content, d)
 		},
 		GetTag_: func(ctx context.Context, repo string, tag string) (ociregistry.BlobReader, error) {
 			b.log(recCall{Method: "GetTag", Repo: repo, Tag: tag, ctx: ctx})
@@ -222,14 +235,14 @@ func (b *recBackend) Funcs() *ociregistry.Funcs {
 			if b.Err != nil {
 				return ociregistry.Descriptor{}, b.Err
 			}
-			return b.desc(), nil
+			return b.descFor(d), nil
 		},
 		ResolveManifest_: func(ctx context.Context, repo string, d ociregistry.Digest) (ociregistry.Descriptor, error) {
 			b.log(recCall{Method: "ResolveManifest", Repo: repo, Digest: string(d), ctx: ctx})
 			if b.Err != nil {
 				return ociregistry.Descriptor{}, b.Err
 			}
-			return b.desc(), nil
+			return b.descFor(d), nil
 		},
 		ResolveTag_: func(ctx context.Context, repo string, tag string) (ociregistry.Descriptor, error) {
 			b.log(recCall{Method: "ResolveTag", Repo: repo, Tag: tag, ctx: ctx})
